@@ -469,6 +469,32 @@ def _custom_size(ck, cx, k, fn, want, nz):
     """affine summary of a custom calculateRtuFrameSize over the buffer bytes it reads"""
     ck.saw('functions', fn.qn)
     buf = fn.params[1]
+    # whatever the message, the size of a frame is a function of the bytes of the frame, never of how many bytes have arrived so far
+    uses_len = [n_ for n_ in ast.walk(fn.node) if isinstance(n_, ast.Call) and isinstance(n_.func, ast.Name) and n_.func.id == 'len'
+                and n_.args and isinstance(n_.args[0], ast.Name) and n_.args[0].id == buf]
+    ck.ob('R3', fn.qn, 'the RTU frame size does not depend on len(buffer)', not uses_len, detail='size-from-buffered-length', loc=cx.floc(fn, uses_len[0]) if uses_len else cx.floc(fn),
+          message='%s computes the frame length from len(%s), the number of bytes buffered so far: with bytes of the next frame behind it the frame is cut '
+                  'at the wrong place and fails its CRC, so what is delivered depends on how the stream was split into reads' % (fn.qn, buf))
+    if k.name not in ('ReadFifoQueueResponse', 'ReadDeviceInformationResponse'):
+        if uses_len:
+            return
+        # an override on a class with a fixed or byte-counted layout: the inherited oracle (constant / byte-count position) is the
+        # reference, and the override must return it on every path
+        vals = set()
+        for p in cx.enum(fn, k, max_depth=0):
+            if p.exit and p.exit[0] == 'exc':
+                continue
+            annotate(p)
+            r = ret_expr(p)
+            try:
+                vals.add(str(nz.norm(r)))
+            except Exception:
+                vals.add(U(r) if r is not None else 'None')
+        size = cx.ce.try_ev(ast.Name(id='_rtu_frame_size', ctx=ast.Load()), k.mod, k)
+        ck.ob('R3', fn.qn, 'an overriding size function of a fixed-size message returns the declared constant', size is not None and vals == {str(size)},
+              detail='custom-size-override %s' % sorted(vals)[:3], loc=cx.floc(fn),
+              message='%s overrides the inherited frame-size oracle and returns %s (declared constant: %s)' % (fn.qn, sorted(vals)[:3], size))
+        return
     if k.name == 'ReadFifoQueueResponse':
         # spec layout: byte count (2 bytes, big-endian) at PDU offset 0 = frame offsets 2,3 ; frame = 2 + 2 + count + 2
         for p in cx.enum(fn, k, max_depth=0):
